@@ -5,7 +5,10 @@
 (* Bits, FragmentsOfRegexps.assemble_regexp) for FLAT declarations.         *)
 (*                                                                          *)
 (* A pattern gives every field either a literal value or Any:               *)
-(*    pattern = sequence of [n, lit : BOOLEAN, v : value]                   *)
+(*    pattern = sequence of [n, lit : BOOLEAN, v : value, like]             *)
+(* like = [kind |-> "none"] for a plain Any, or a placeholder that asks for *)
+(* a byte string that begins with / ends with / contains some bytes:        *)
+(*    [kind |-> "starts" | "ends" | "contains", b]   Any(startswith=b) ...  *)
 (* Render(dfs, pattern) is the token list the code assembles:               *)
 (*    [k |-> "lit", b]       re.escape(bytes)                               *)
 (*    [k |-> "dot", n]       .{n}                                           *)
@@ -60,16 +63,32 @@ UsesAnyEq(e, pattern) ==
       [] OTHER -> FALSE
 
 \* ---- per-field rendering
+NoLike == [kind |-> "none"]
+\* the expression a placeholder brings with it (pasted where a plain Any gives .*); a known byte count wins over it
+LikeTokens(like) ==
+    CASE like.kind = "starts" -> <<Lit(like.b), Star>>
+      [] like.kind = "ends" -> <<Star, Lit(like.b)>>
+      [] like.kind = "contains" -> <<Star, Lit(like.b), Star>>
+      [] OTHER -> <<Star>>
+\* what the placeholder asks of a value (its NAME: at the begin, at the end, anywhere)
+IsPrefixB(b, x) == Len(b) <= Len(x) /\ SubSeq(x, 1, Len(b)) = b
+IsSuffixB(b, x) == Len(b) <= Len(x) /\ SubSeq(x, Len(x) - Len(b) + 1, Len(x)) = b
+LikeHolds(like, x) ==
+    CASE like.kind = "starts" -> IsPrefixB(like.b, x)
+      [] like.kind = "ends" -> IsSuffixB(like.b, x)
+      [] like.kind = "contains" -> Find(x, like.b) >= 0
+      [] OTHER -> TRUE
 RenderData(f, pattern) ==
-    LET p == PLook(pattern, f.name) IN
+    LET p == PLook(pattern, f.name)
+        any == LikeTokens(p.like) IN
     IF p.lit
     THEN <<Lit(p.v.b \o (IF f.size.m = "marker" /\ ~f.size.incl THEN f.size.b ELSE <<>>))>>
     ELSE CASE f.size.m = "const" -> <<Dot(f.size.v)>>
-           [] f.size.m = "field" -> LET q == PLook(pattern, f.size.f) IN IF q.lit THEN <<Dot(q.v.i)>> ELSE <<Star>>
+           [] f.size.m = "field" -> LET q == PLook(pattern, f.size.f) IN IF q.lit THEN <<Dot(q.v.i)>> ELSE any
            [] f.size.m = "expr" -> LET r == EvalAny(f.size.e, pattern) IN
-                                   IF r.st = "val" /\ r.v.t = "int" THEN <<Dot(r.v.i)>> ELSE <<Star>>
-           [] f.size.m = "marker" -> <<Star, Lit(f.size.b)>>
-           [] OTHER -> <<Star, Rx(f.size.r)>>
+                                   IF r.st = "val" /\ r.v.t = "int" THEN <<Dot(r.v.i)>> ELSE any
+           [] f.size.m = "marker" -> any \o <<Lit(f.size.b)>>
+           [] OTHER -> any \o <<Rx(f.size.r)>>
 
 \* bits: one token per byte of the run; bit string MSB first, "x" = don't care
 RECURSIVE BitsOf(_, _)
@@ -122,5 +141,9 @@ M(toks, i, s, pos) ==      \* pos = number of bytes consumed
 MatchesPrefix(toks, s) == M(toks, 1, s, 0)
 
 \* the packet parsed from s equals the pattern (Any equals everything)
-EqPattern(vals, pattern) == \A i \in 1..Len(pattern) : ~pattern[i].lit \/ (HasVal(vals, pattern[i].n) /\ Lookup(vals, pattern[i].n) = pattern[i].v)
+EqPattern(vals, pattern) ==
+    \A i \in 1..Len(pattern) :
+        IF pattern[i].lit THEN HasVal(vals, pattern[i].n) /\ Lookup(vals, pattern[i].n) = pattern[i].v
+        ELSE pattern[i].like.kind = "none" \/
+             (HasVal(vals, pattern[i].n) /\ Lookup(vals, pattern[i].n).t = "bytes" /\ LikeHolds(pattern[i].like, Lookup(vals, pattern[i].n).b))
 =============================================================================
